@@ -298,6 +298,11 @@ def check_bounds(case, rec):
     require(float(np.min(v)) >= 0.0, f"negative kriging variance {float(np.min(v)):.3g}", dict(tags, kind="var_negative"))
     if not kc.is_unbiased(cfg) and kc.n_drift(cfg, fdim) == 0:
         ref = kc.oracle(case, pos, model)
+        if not np.isfinite(ref["cond"]) or ref["cond"] > 1e12:
+            # numerically singular system (smooth model, dense data) inverted without the pseudo inverse: outside the property's restriction
+            rec.exclude("numerically_singular_system")
+            rec.nontrivial(False)
+            return
         slack = 1e-9 * sill * max(1.0, (ref["cond"] if np.isfinite(ref["cond"]) else 1e16) * np.finfo(float).eps * 1e2)
         rec.discrepancy("var_over_sill", float(np.max(v) - sill), slack)
         require(
